@@ -1,3 +1,875 @@
 import RzmqModel.Model.Session
+import RzmqModel.Props.C03
+import RzmqModel.Proofs.Wire
+/-!
+Helper lemmas and invariants for `Props/C01.lean` (model: `Model/Session.lean`).
+-/
 namespace Rzmq
+
+-- ---------------------------------------------------------------------------------------------
+-- batch assembly
+-- ---------------------------------------------------------------------------------------------
+
+/-- sum of the wire-size estimates of a batch -/
+def wsum (b : List Message) : Nat := (b.map wireSize).sum
+
+theorem wsum_append (a b : List Message) : wsum (a ++ b) = wsum a + wsum b := by
+  simp [wsum]
+
+theorem wsum_singleton (m : Message) : wsum [m] = wireSize m := by
+  simp [wsum]
+
+/-- `takeWhileFits` splits its source: some prefix joins the batch, the rest is returned in order -/
+theorem takeWhileFits_spec (mc mb : Nat) : ∀ (src batch : List Message) (total : Nat),
+    ∃ k, (takeWhileFits mc mb batch src total).1 = batch ++ src.take k
+       ∧ (takeWhileFits mc mb batch src total).2.2 = src.drop k := by
+  intro src
+  induction src with
+  | nil => intro batch total; exact ⟨0, by simp [takeWhileFits]⟩
+  | cons m rest ih =>
+    intro batch total
+    unfold takeWhileFits
+    split
+    · split
+      · exact ⟨0, by simp⟩
+      · obtain ⟨k, h1, h2⟩ := ih (batch ++ [m]) (total + wireSize m)
+        exact ⟨k + 1, by simp [h1, h2]⟩
+    · exact ⟨0, by simp⟩
+
+theorem takeWhileFits_length (mc mb : Nat) : ∀ (src batch : List Message) (total : Nat),
+    batch.length ≤ mc → (takeWhileFits mc mb batch src total).1.length ≤ mc := by
+  intro src
+  induction src with
+  | nil => intro batch total h; simpa [takeWhileFits] using h
+  | cons m rest ih =>
+    intro batch total h
+    unfold takeWhileFits
+    split
+    · split
+      · exact h
+      · apply ih; simp; omega
+    · exact h
+
+theorem takeWhileFits_bytes (mc mb : Nat) : ∀ (src batch : List Message) (total : Nat),
+    total = wsum batch → (total ≤ mb ∨ batch.length ≤ 1) →
+    (takeWhileFits mc mb batch src total).2.1 = wsum (takeWhileFits mc mb batch src total).1
+    ∧ ((takeWhileFits mc mb batch src total).2.1 ≤ mb
+        ∨ (takeWhileFits mc mb batch src total).1.length ≤ 1) := by
+  intro src
+  induction src with
+  | nil => intro batch total h1 h2; simpa [takeWhileFits] using ⟨h1, h2⟩
+  | cons m rest ih =>
+    intro batch total h1 h2
+    unfold takeWhileFits
+    split
+    · split
+      · exact ⟨h1, h2⟩
+      · rename_i hc
+        apply ih
+        · rw [wsum_append, wsum_singleton, h1]
+        · simp only [Bool.and_eq_true, decide_eq_true_eq, Bool.not_eq_true', not_and,
+            Bool.not_eq_false] at hc
+          by_cases hgt : total + wireSize m > mb
+          · right
+            have := hc hgt
+            simp only [List.isEmpty_iff] at this
+            simp [this]
+          · left; omega
+    · exact ⟨h1, h2⟩
+
+theorem acceptDrained_spec (mb : Nat) : ∀ (src batch : List Message) (total : Nat),
+    ∃ k, (acceptDrained mb batch src total).1 = batch ++ src.take k
+       ∧ (acceptDrained mb batch src total).2 = src.drop k := by
+  intro src
+  induction src with
+  | nil => intro batch total; exact ⟨0, by simp [acceptDrained]⟩
+  | cons m rest ih =>
+    intro batch total
+    unfold acceptDrained
+    split
+    · exact ⟨0, by simp⟩
+    · obtain ⟨k, h1, h2⟩ := ih (batch ++ [m]) (total + wireSize m)
+      exact ⟨k + 1, by simp [h1, h2]⟩
+
+theorem acceptDrained_bytes (mb : Nat) : ∀ (src batch : List Message) (total : Nat),
+    total = wsum batch → (total ≤ mb ∨ batch.length ≤ 1) →
+    (wsum (acceptDrained mb batch src total).1 ≤ mb
+        ∨ (acceptDrained mb batch src total).1.length ≤ 1) := by
+  intro src
+  induction src with
+  | nil => intro batch total h1 h2; simpa [acceptDrained, ← h1] using h2
+  | cons m rest ih =>
+    intro batch total h1 h2
+    unfold acceptDrained
+    split
+    · simpa [← h1] using h2
+    · rename_i hc
+      apply ih
+      · rw [wsum_append, wsum_singleton, h1]
+      · simp only [Bool.and_eq_true, decide_eq_true_eq, Bool.not_eq_true', not_and,
+          Bool.not_eq_false] at hc
+        by_cases hgt : total + wireSize m > mb
+        · right
+          have := hc hgt
+          simp only [List.isEmpty_iff] at this
+          simp [this]
+        · left; omega
+
+theorem needed_le (cfg : BatchCfg) (mc startLen total : Nat) :
+    needed cfg mc startLen total ≤ mc - startLen := by
+  unfold needed
+  split
+  · exact Nat.min_le_left _ _
+  · exact Nat.zero_le _
+
+theorem maxCount_pos (cfg : BatchCfg) (pending : Nat) (hc : 1 ≤ cfg.count) : 1 ≤ maxCount cfg pending := by
+  unfold maxCount; omega
+
+/-- shape of a carry-over pass: a prefix of the carry-over, topped up from the pipe only when the carry-over was
+taken completely -/
+theorem assembleFromCarry_spec (cfg : BatchCfg) (pending : Nat) (carry pipe : List Message) :
+    ∃ k want j,
+      (assembleFromCarry cfg pending carry pipe).batch = carry.take k ++ (pipe.take want).take j
+      ∧ (assembleFromCarry cfg pending carry pipe).carry = carry.drop k ++ (pipe.take want).drop j
+      ∧ (assembleFromCarry cfg pending carry pipe).pipe = pipe.drop want
+      ∧ (carry.drop k ≠ [] → want = 0)
+      ∧ (carry.take k).length ≤ maxCount cfg pending
+      ∧ want ≤ maxCount cfg pending - (carry.take k).length := by
+  simp only [assembleFromCarry]
+  obtain ⟨k, h1, h2⟩ := takeWhileFits_spec (maxCount cfg pending) cfg.physical carry [] 0
+  have h3 := takeWhileFits_length (maxCount cfg pending) cfg.physical carry [] 0 (Nat.zero_le _)
+  generalize takeWhileFits (maxCount cfg pending) cfg.physical [] carry 0 = r at h1 h2 h3
+  obtain ⟨b, t, c1⟩ := r
+  simp only [List.nil_append] at h1 h2 h3 ⊢
+  subst h1 h2
+  generalize hw : (if (Gen.topUpOnlyIfCarryEmpty == 1 && !(List.drop k carry).isEmpty) = true then 0
+    else needed cfg (maxCount cfg pending) (List.take k carry).length t) = want
+  obtain ⟨j, g1, g2⟩ := acceptDrained_spec cfg.physical (pipe.take want) (List.take k carry) t
+  refine ⟨k, want, j, g1, by rw [g2], rfl, ?_, h3, ?_⟩
+  · intro hne
+    have : (List.drop k carry).isEmpty = false := by
+      cases h : (List.drop k carry).isEmpty
+      · rfl
+      · exact absurd (List.isEmpty_iff.mp h) hne
+    rw [← hw]
+    simp [Gen.topUpOnlyIfCarryEmpty, this]
+  · rw [← hw]
+    split
+    · exact Nat.zero_le _
+    · exact needed_le _ _ _ _
+
+theorem assembleFromPipe_spec (cfg : BatchCfg) (pending : Nat) (first : Message) (pipe : List Message) :
+    ∃ want j,
+      (assembleFromPipe cfg pending first pipe).batch = first :: (pipe.take want).take j
+      ∧ (assembleFromPipe cfg pending first pipe).carry = (pipe.take want).drop j
+      ∧ (assembleFromPipe cfg pending first pipe).pipe = pipe.drop want
+      ∧ want ≤ maxCount cfg pending - 1 := by
+  simp only [assembleFromPipe]
+  generalize hw : needed cfg (min cfg.count (max (max cfg.sndhwm 1 - pending) 1)) 1 (wireSize first) = want
+  obtain ⟨j, g1, g2⟩ := acceptDrained_spec cfg.physical (pipe.take want) [first] (wireSize first)
+  refine ⟨want, j, by simpa using g1, g2, rfl, ?_⟩
+  rw [← hw]
+  exact needed_le _ _ _ _
+
+theorem assembleFromCarry_conserves (cfg : BatchCfg) (pending : Nat) (carry pipe : List Message) :
+    (assembleFromCarry cfg pending carry pipe).batch ++ (assembleFromCarry cfg pending carry pipe).carry
+      ++ (assembleFromCarry cfg pending carry pipe).pipe = carry ++ pipe := by
+  obtain ⟨k, want, j, h1, h2, h3, h4, -, -⟩ := assembleFromCarry_spec cfg pending carry pipe
+  rw [h1, h2, h3]
+  by_cases hne : carry.drop k = []
+  · have : carry.take k = carry := by
+      conv => rhs; rw [← List.take_append_drop k carry, hne, List.append_nil]
+    rw [hne, this]
+    simp only [List.nil_append, List.append_assoc]
+    rw [← List.append_assoc (List.take j _), List.take_append_drop, List.take_append_drop]
+  · rw [h4 hne]
+    simp
+
+theorem assembleFromPipe_conserves (cfg : BatchCfg) (pending : Nat) (first : Message) (pipe : List Message) :
+    (assembleFromPipe cfg pending first pipe).batch ++ (assembleFromPipe cfg pending first pipe).carry
+      ++ (assembleFromPipe cfg pending first pipe).pipe = first :: pipe := by
+  obtain ⟨want, j, h1, h2, h3, -⟩ := assembleFromPipe_spec cfg pending first pipe
+  rw [h1, h2, h3]
+  simp only [List.cons_append, List.append_assoc]
+  rw [← List.append_assoc (List.take j _), List.take_append_drop, List.take_append_drop]
+
+theorem assembleFromCarry_progress (cfg : BatchCfg) (pending : Nat) (carry pipe : List Message)
+    (hc : 1 ≤ cfg.count) (hne : carry ≠ []) :
+    (assembleFromCarry cfg pending carry pipe).batch ≠ [] := by
+  have hmc := maxCount_pos cfg pending hc
+  simp only [assembleFromCarry]
+  cases carry with
+  | nil => exact absurd rfl hne
+  | cons m rest =>
+    have e : takeWhileFits (maxCount cfg pending) cfg.physical [] (m :: rest) 0
+        = takeWhileFits (maxCount cfg pending) cfg.physical [m] rest (0 + wireSize m) := by
+      rw [takeWhileFits]
+      simp only [List.length_nil, List.isEmpty_nil, Bool.not_true, Bool.and_false, Bool.false_eq_true,
+        if_false, List.nil_append]
+      exact if_pos hmc
+    rw [e]
+    obtain ⟨k, h1, -⟩ := takeWhileFits_spec (maxCount cfg pending) cfg.physical rest [m] (0 + wireSize m)
+    generalize takeWhileFits (maxCount cfg pending) cfg.physical [m] rest (0 + wireSize m) = r at h1
+    generalize hw : (if (Gen.topUpOnlyIfCarryEmpty == 1 && !r.2.2.isEmpty) = true then 0
+      else needed cfg (maxCount cfg pending) r.1.length r.2.1) = want
+    obtain ⟨j, g1, -⟩ := acceptDrained_spec cfg.physical (pipe.take want) r.1 r.2.1
+    rw [g1, h1]
+    simp
+
+theorem assembleFromCarry_count (cfg : BatchCfg) (pending : Nat) (carry pipe : List Message) :
+    (assembleFromCarry cfg pending carry pipe).batch.length ≤ maxCount cfg pending := by
+  obtain ⟨k, want, j, h1, -, -, -, h5, h6⟩ := assembleFromCarry_spec cfg pending carry pipe
+  rw [h1]
+  simp only [List.length_append, List.length_take] at h5 h6 ⊢
+  omega
+
+theorem assembleFromPipe_count (cfg : BatchCfg) (pending : Nat) (first : Message) (pipe : List Message)
+    (hc : 1 ≤ cfg.count) :
+    (assembleFromPipe cfg pending first pipe).batch.length ≤ maxCount cfg pending := by
+  have hmc := maxCount_pos cfg pending hc
+  obtain ⟨want, j, h1, -, -, h4⟩ := assembleFromPipe_spec cfg pending first pipe
+  rw [h1]
+  simp only [List.length_cons, List.length_take]
+  omega
+
+theorem assembleFromCarry_bytes (cfg : BatchCfg) (pending : Nat) (carry pipe : List Message) :
+    wsum (assembleFromCarry cfg pending carry pipe).batch ≤ cfg.physical
+      ∨ (assembleFromCarry cfg pending carry pipe).batch.length ≤ 1 := by
+  simp only [assembleFromCarry]
+  obtain ⟨h1, h2⟩ := takeWhileFits_bytes (maxCount cfg pending) cfg.physical carry [] 0 rfl (Or.inl (Nat.zero_le _))
+  exact acceptDrained_bytes _ _ _ _ h1 h2
+
+/-- what a carry-over pass leaves in the carry-over is no longer than before, or at most one batch -/
+theorem assembleFromCarry_carry_length (cfg : BatchCfg) (pending : Nat) (carry pipe : List Message) :
+    (assembleFromCarry cfg pending carry pipe).carry.length ≤ max carry.length cfg.count := by
+  obtain ⟨k, want, j, -, h2, -, h4, h5, h6⟩ := assembleFromCarry_spec cfg pending carry pipe
+  rw [h2]
+  have hm : maxCount cfg pending ≤ cfg.count := Nat.min_le_left _ _
+  by_cases hne : carry.drop k = []
+  · rw [hne]
+    simp only [List.nil_append, List.length_drop, List.length_take]
+    omega
+  · rw [h4 hne]
+    simp only [List.take_zero, List.drop_nil, List.append_nil, List.length_drop]
+    omega
+
+theorem assembleFromPipe_carry_length (cfg : BatchCfg) (pending : Nat) (first : Message) (pipe : List Message) :
+    (assembleFromPipe cfg pending first pipe).carry.length ≤ cfg.count := by
+  obtain ⟨want, j, -, h2, -, h4⟩ := assembleFromPipe_spec cfg pending first pipe
+  rw [h2]
+  have hm : maxCount cfg pending ≤ cfg.count := Nat.min_le_left _ _
+  simp only [List.length_drop, List.length_take]
+  omega
+
+-- ---------------------------------------------------------------------------------------------
+-- egress buffer
+-- ---------------------------------------------------------------------------------------------
+
+theorem advance_zero (fuel : Nat) (e : Egress) : Egress.advance fuel e 0 = e := by
+  cases fuel <;> rfl
+
+theorem advance_nil (fuel : Nat) (e : Egress) (n : Nat) (h : e.chunks = []) : Egress.advance fuel e n = e := by
+  cases fuel with
+  | zero => rfl
+  | succ fuel =>
+    cases n with
+    | zero => rfl
+    | succ n => simp only [Egress.advance, h]
+
+/-- the state after the head chunk `h` has been written completely -/
+def Egress.pop (e : Egress) (h : Chunk) (rest : List Chunk) : Egress :=
+  { e with chunks := rest, offset := 0, msgCount := e.msgCount - h.msgs,
+           written := e.written ++ h.data.drop e.offset, done := e.done ++ [h] }
+
+/-- one round of `advance` on a non-empty buffer -/
+theorem advance_cons (fuel : Nat) (e : Egress) (n : Nat) (h : Chunk) (rest : List Chunk) (hc : e.chunks = h :: rest) :
+    Egress.advance (fuel + 1) e (n + 1) =
+      if n + 1 ≥ h.data.length - e.offset then
+        Egress.advance fuel (e.pop h rest) (n + 1 - (h.data.length - e.offset))
+      else { e with offset := e.offset + (n + 1), written := e.written ++ (h.data.drop e.offset).take (n + 1) } := by
+  simp only [Egress.advance, hc, Egress.pop]
+
+theorem advance_spec : ∀ (fuel : Nat) (e : Egress) (n : Nat), e.chunks.length + 1 ≤ fuel →
+    (Egress.advance fuel e n).written = e.written ++ e.pendingBytes.take n
+    ∧ (Egress.advance fuel e n).pendingBytes = e.pendingBytes.drop n := by
+  intro fuel
+  induction fuel with
+  | zero => intro e n h; omega
+  | succ fuel ih =>
+    intro e n hf
+    cases n with
+    | zero => simp [advance_zero]
+    | succ n =>
+      cases hc : e.chunks with
+      | nil => simp [advance_nil _ _ _ hc, Egress.pendingBytes, hc]
+      | cons h rest =>
+        rw [advance_cons fuel e n h rest hc]
+        have hp : e.pendingBytes = h.data.drop e.offset ++ (rest.map (·.data)).flatten := by
+          simp only [Egress.pendingBytes, hc]
+        have hl : (h.data.drop e.offset).length = h.data.length - e.offset := List.length_drop
+        split
+        · rename_i hge
+          have hf' : rest.length + 1 ≤ fuel := by
+            rw [hc] at hf; simp only [List.length_cons] at hf; omega
+          obtain ⟨i1, i2⟩ := ih (e.pop h rest) (n + 1 - (h.data.length - e.offset)) hf'
+          have hp2 : Egress.pendingBytes (e.pop h rest) = (rest.map (·.data)).flatten := by
+            simp only [Egress.pendingBytes, Egress.pop]
+            cases rest <;> simp
+          have t1 : List.take (n + 1) e.pendingBytes = h.data.drop e.offset ++
+              List.take (n + 1 - (h.data.length - e.offset)) (rest.map (·.data)).flatten := by
+            rw [hp, List.take_append, hl, List.take_of_length_le (by omega)]
+          have t2 : List.drop (n + 1) e.pendingBytes =
+              List.drop (n + 1 - (h.data.length - e.offset)) (rest.map (·.data)).flatten := by
+            rw [hp, List.drop_append, hl, List.drop_of_length_le (by omega), List.nil_append]
+          rw [i1, i2, hp2, t1, t2]
+          simp [Egress.pop]
+        · rename_i hlt
+          simp only [Egress.pendingBytes, hc]
+          rw [List.take_append_of_le_length (by omega), List.drop_append_of_le_length (by omega)]
+          simp
+theorem pushPriority_pending (e : Egress) (f : List UInt8) (hoff : e.offset > 0 → e.chunks ≠ []) :
+    (e.pushPriority f).pendingBytes =
+      (match e.chunks with
+       | [] => f
+       | h :: rest => if e.offset > 0 then h.data.drop e.offset ++ f ++ (rest.map (·.data)).flatten
+                      else f ++ e.pendingBytes) := by
+  unfold Egress.pushPriority
+  by_cases hf : f.isEmpty = true
+  · have : f = [] := List.isEmpty_iff.mp hf
+    subst this
+    cases hc : e.chunks with
+    | nil => simp [Egress.pendingBytes, hc]
+    | cons h rest =>
+      simp only [List.isEmpty_nil, if_true, Egress.pendingBytes, hc, List.append_nil, List.nil_append]
+      split <;> rfl
+  · simp only [hf, Bool.false_eq_true, if_false]
+    by_cases ho : e.offset > 0
+    · simp only [ho, if_true]
+      cases hc : e.chunks with
+      | nil => exact absurd hc (hoff ho)
+      | cons h rest => simp [Egress.pendingBytes]
+    · have h0 : e.offset = 0 := by omega
+      simp only [ho, if_false]
+      cases hc : e.chunks with
+      | nil => simp [Egress.pendingBytes, h0]
+      | cons h rest => simp [Egress.pendingBytes, h0, hc]
+
+/-- `advance` only moves chunks from the front of `chunks` to the back of `done` -/
+theorem advance_done_chunks : ∀ (fuel : Nat) (e : Egress) (n : Nat),
+    (Egress.advance fuel e n).done ++ (Egress.advance fuel e n).chunks = e.done ++ e.chunks := by
+  intro fuel
+  induction fuel with
+  | zero => intro e n; rfl
+  | succ fuel ih =>
+    intro e n
+    cases n with
+    | zero => rfl
+    | succ n =>
+      cases hc : e.chunks with
+      | nil => rw [advance_nil _ _ _ hc, hc]
+      | cons h rest =>
+        rw [advance_cons fuel e n h rest hc]
+        split
+        · rw [ih]; simp [Egress.pop]
+        · simp [hc]
+
+theorem advance_msgCount_le : ∀ (fuel : Nat) (e : Egress) (n : Nat),
+    (Egress.advance fuel e n).msgCount ≤ e.msgCount := by
+  intro fuel
+  induction fuel with
+  | zero => intro e n; exact Nat.le_refl _
+  | succ fuel ih =>
+    intro e n
+    cases n with
+    | zero => exact Nat.le_refl _
+    | succ n =>
+      cases hc : e.chunks with
+      | nil => rw [advance_nil _ _ _ hc]; exact Nat.le_refl _
+      | cons h rest =>
+        rw [advance_cons fuel e n h rest hc]
+        split
+        · exact Nat.le_trans (ih _ _) (by simp [Egress.pop])
+        · exact Nat.le_refl _
+
+/-- what has reached the transport is whole chunks plus a prefix of the head chunk; an empty buffer has offset 0 -/
+def Egress.Aligned (e : Egress) : Prop :=
+  e.written = ((e.done.map (·.data)).flatten) ++ ((e.chunks.head?.map (·.data.take e.offset)).getD [])
+  ∧ (e.chunks = [] → e.offset = 0)
+
+theorem aligned_init : Egress.Aligned {} := by
+  simp [Egress.Aligned]
+
+theorem advance_aligned : ∀ (fuel : Nat) (e : Egress) (n : Nat), e.Aligned → (Egress.advance fuel e n).Aligned := by
+  intro fuel
+  induction fuel with
+  | zero => intro e n h; exact h
+  | succ fuel ih =>
+    intro e n hal
+    cases n with
+    | zero => exact hal
+    | succ n =>
+      cases hc : e.chunks with
+      | nil => rw [advance_nil _ _ _ hc]; exact hal
+      | cons h rest =>
+        rw [advance_cons fuel e n h rest hc]
+        obtain ⟨hw, -⟩ := hal
+        simp only [hc, List.head?_cons, Option.map_some, Option.getD_some] at hw
+        split
+        · apply ih
+          refine ⟨?_, fun _ => rfl⟩
+          simp only [Egress.pop, hw, List.map_append, List.flatten_append, List.map_cons, List.map_nil,
+            List.flatten_cons, List.flatten_nil, List.append_nil, List.append_assoc, List.take_append_drop]
+          cases rest <;> simp
+        · refine ⟨?_, fun h' => by simp [hc] at h'⟩
+          simp only [hc, List.head?_cons, Option.map_some, Option.getD_some, hw, List.append_assoc]
+          congr 1
+          exact (List.take_add (l := h.data) (i := e.offset) (j := n + 1)).symm
+
+theorem push_aligned (e : Egress) (d : List UInt8) (n : Nat) (h : e.Aligned) : (e.push d n).Aligned := by
+  unfold Egress.push
+  split
+  · exact h
+  · obtain ⟨hw, h0⟩ := h
+    refine ⟨?_, by simp⟩
+    cases hc : e.chunks with
+    | nil => simp [hw, hc, h0 hc]
+    | cons c rest => simp [hw, hc]
+
+theorem pushPriority_aligned (e : Egress) (d : List UInt8) (h : e.Aligned) : (e.pushPriority d).Aligned := by
+  unfold Egress.pushPriority
+  obtain ⟨hw, h0⟩ := h
+  split
+  · exact ⟨hw, h0⟩
+  · split
+    · rename_i ho
+      cases hc : e.chunks with
+      | nil => have := h0 hc; omega
+      | cons c rest =>
+        refine ⟨?_, by simp⟩
+        simp [hw, hc]
+    · rename_i ho
+      have h00 : e.offset = 0 := by omega
+      refine ⟨?_, by simp⟩
+      cases hc : e.chunks with
+      | nil => simp [hw, hc, h00]
+      | cons c rest => simp [hw, hc, h00]
+
+-- data bytes ------------------------------------------------------------------------------------
+
+theorem push_dataBytes (e : Egress) (d : List UInt8) (n : Nat) : (e.push d n).dataBytes = e.dataBytes ++ d := by
+  unfold Egress.push
+  split
+  · rename_i hd
+    rw [List.isEmpty_iff.mp hd, List.append_nil]
+  · simp [Egress.dataBytes, ← List.append_assoc]
+
+theorem pushPriority_dataBytes (e : Egress) (d : List UInt8) : (e.pushPriority d).dataBytes = e.dataBytes := by
+  unfold Egress.pushPriority
+  split
+  · rfl
+  · split
+    · cases hc : e.chunks with
+      | nil => simp [Egress.dataBytes, hc]
+      | cons c rest => simp [Egress.dataBytes, hc, List.filter_cons]
+    · simp [Egress.dataBytes]
+
+theorem advance_dataBytes (fuel : Nat) (e : Egress) (n : Nat) : (Egress.advance fuel e n).dataBytes = e.dataBytes := by
+  simp only [Egress.dataBytes, advance_done_chunks]
+
+-- ---------------------------------------------------------------------------------------------
+-- the send path
+-- ---------------------------------------------------------------------------------------------
+
+theorem frameBatch_append (a b : List Message) : frameBatch (a ++ b) = frameBatch a ++ frameBatch b := by
+  simp [frameBatch, frameContiguous]
+
+theorem frameBatch_nil : frameBatch [] = [] := rfl
+
+/-- induction over an event sequence, the step hypothesis restricted to the events that occur -/
+theorem SendPath.run_induction (P : SendPath → Prop) (evs : List SendEv) :
+    ∀ (s : SendPath), P s → (∀ s ev, ev ∈ evs → P s → P (s.step ev)) → P (s.run evs) := by
+  induction evs with
+  | nil => intro s h _; exact h
+  | cons ev evs ih =>
+    intro s h hstep
+    simp only [SendPath.run, List.foldl_cons]
+    exact ih (s.step ev) (hstep s ev (List.mem_cons_self ..) h)
+      (fun s' ev' hm hp => hstep s' ev' (List.mem_cons_of_mem _ hm) hp)
+
+theorem SendPath.step_cfg (s : SendPath) (ev : SendEv) : (s.step ev).cfg = s.cfg := by
+  cases ev <;> simp only [SendPath.step]
+  · split <;> rfl
+  · split
+    · split <;> rfl
+    · rfl
+
+theorem SendPath.run_cfg (s : SendPath) (evs : List SendEv) : (s.run evs).cfg = s.cfg :=
+  SendPath.run_induction (fun t => t.cfg = s.cfg) evs s rfl (fun t ev _ h => by rw [SendPath.step_cfg, h])
+
+/-- the pipe branch is only taken with an empty carry-over (rests on `Gen.pipeBranchNeedsEmptyCarry = 1`) -/
+theorem pipe_guard_carry_nil {s : SendPath}
+    (h : ((s.carry.isEmpty || Gen.pipeBranchNeedsEmptyCarry == 0) && s.gateOpen) = true) :
+    s.carry = [] ∧ s.gateOpen = true := by
+  simp only [Gen.pipeBranchNeedsEmptyCarry, Bool.and_eq_true, Bool.or_eq_true, beq_iff_eq] at h
+  obtain ⟨h1, h2⟩ := h
+  refine ⟨?_, h2⟩
+  cases h1 with
+  | inl h => exact List.isEmpty_iff.mp h
+  | inr h => exact absurd h (by decide)
+
+/-- every step appends exactly the framing of the newly accepted message (if any) to the wire order -/
+theorem SendPath.step_wire (s : SendPath) (ev : SendEv) :
+    (s.step ev).wire = s.wire ++ (match ev with | .accept m => frameBatch [m] | _ => [])
+    ∧ (s.step ev).accepted = s.accepted ++ (match ev with | .accept m => [m] | _ => []) := by
+  cases ev with
+  | accept m => simp [SendPath.step, SendPath.wire, frameBatch_append]
+  | assembleCarry =>
+    simp only [SendPath.step]
+    split
+    · refine ⟨?_, by simp⟩
+      simp only [SendPath.wire, push_dataBytes, List.append_nil, List.append_assoc]
+      rw [← frameBatch_append, ← frameBatch_append, ← List.append_assoc, assembleFromCarry_conserves,
+        frameBatch_append]
+    · simp
+  | assemblePipe =>
+    simp only [SendPath.step]
+    split
+    · rename_i hg
+      obtain ⟨hcn, -⟩ := pipe_guard_carry_nil hg
+      split
+      · simp
+      · rename_i first rest hp
+        refine ⟨?_, by simp⟩
+        simp only [SendPath.wire, push_dataBytes, List.append_nil, List.append_assoc, hcn, List.nil_append, hp,
+          frameBatch_nil]
+        rw [← frameBatch_append, ← frameBatch_append, ← List.append_assoc, assembleFromPipe_conserves]
+    · simp
+  | written n => simp [SendPath.step, SendPath.wire, advance_dataBytes]
+  | control f => simp [SendPath.step, SendPath.wire, pushPriority_dataBytes]
+
+theorem SendPath.step_fifo (s : SendPath) (ev : SendEv) (h : s.wire = frameBatch s.accepted) :
+    (s.step ev).wire = frameBatch (s.step ev).accepted := by
+  obtain ⟨h1, h2⟩ := SendPath.step_wire s ev
+  rw [h1, h2, frameBatch_append, h]
+  cases ev <;> rfl
+
+theorem SendPath.run_fifo (cfg : BatchCfg) (evs : List SendEv) :
+    (SendPath.run { cfg := cfg } evs).wire = frameBatch (SendPath.run { cfg := cfg } evs).accepted :=
+  SendPath.run_induction (fun t => t.wire = frameBatch t.accepted) evs _ rfl
+    (fun t ev _ h => SendPath.step_fifo t ev h)
+
+theorem SendPath.step_aligned (s : SendPath) (ev : SendEv) (h : s.egress.Aligned) : (s.step ev).egress.Aligned := by
+  cases ev with
+  | accept m => exact h
+  | assembleCarry =>
+    simp only [SendPath.step]
+    split
+    · exact push_aligned _ _ _ h
+    · exact h
+  | assemblePipe =>
+    simp only [SendPath.step]
+    split
+    · split
+      · exact h
+      · exact push_aligned _ _ _ h
+    · exact h
+  | written n => exact advance_aligned _ _ _ h
+  | control f => exact pushPriority_aligned _ _ h
+
+theorem SendPath.run_aligned (cfg : BatchCfg) (evs : List SendEv) :
+    (SendPath.run { cfg := cfg } evs).egress.Aligned :=
+  SendPath.run_induction (fun t => t.egress.Aligned) evs _ aligned_init
+    (fun t ev _ h => SendPath.step_aligned t ev h)
+
+-- no control traffic: no priority chunks ----------------------------------------------------------
+
+def Egress.NoPrio (e : Egress) : Prop := ∀ c ∈ e.done ++ e.chunks, c.prio = false
+
+theorem push_noPrio (e : Egress) (d : List UInt8) (n : Nat) (h : e.NoPrio) : (e.push d n).NoPrio := by
+  unfold Egress.push
+  split
+  · exact h
+  · intro c hc
+    simp only [← List.append_assoc, List.mem_append, List.mem_singleton] at hc
+    cases hc with
+    | inl hc => exact h c (List.mem_append.mpr hc)
+    | inr hc => rw [hc]
+
+theorem advance_noPrio (fuel : Nat) (e : Egress) (n : Nat) (h : e.NoPrio) : (Egress.advance fuel e n).NoPrio := by
+  unfold Egress.NoPrio
+  rw [advance_done_chunks]
+  exact h
+
+theorem noPrio_dataBytes (e : Egress) (h : e.NoPrio) : e.dataBytes = ((e.done ++ e.chunks).map (·.data)).flatten := by
+  unfold Egress.dataBytes
+  rw [List.filter_eq_self.mpr]
+  intro c hc
+  simp [h c hc]
+
+theorem SendPath.step_noPrio (s : SendPath) (ev : SendEv) (hctl : ∀ f, ev ≠ .control f) (h : s.egress.NoPrio) :
+    (s.step ev).egress.NoPrio := by
+  cases ev with
+  | accept m => exact h
+  | assembleCarry =>
+    simp only [SendPath.step]
+    split
+    · exact push_noPrio _ _ _ h
+    · exact h
+  | assemblePipe =>
+    simp only [SendPath.step]
+    split
+    · split
+      · exact h
+      · exact push_noPrio _ _ _ h
+    · exact h
+  | written n => exact advance_noPrio _ _ _ h
+  | control f => exact absurd rfl (hctl f)
+
+theorem SendPath.run_noPrio (cfg : BatchCfg) (evs : List SendEv) (hctl : ∀ e ∈ evs, ∀ f, e ≠ .control f) :
+    (SendPath.run { cfg := cfg } evs).egress.NoPrio :=
+  SendPath.run_induction (fun t => t.egress.NoPrio) evs _ (by intro c hc; simp at hc)
+    (fun t ev hm h => SendPath.step_noPrio t ev (hctl ev hm) h)
+
+theorem SendPath.run_drained (cfg : BatchCfg) (evs : List SendEv) (hctl : ∀ e ∈ evs, ∀ f, e ≠ .control f)
+    (h1 : (SendPath.run { cfg := cfg } evs).egress.chunks = [])
+    (h2 : (SendPath.run { cfg := cfg } evs).carry = [])
+    (h3 : (SendPath.run { cfg := cfg } evs).pipe = []) :
+    (SendPath.run { cfg := cfg } evs).egress.written = frameBatch (SendPath.run { cfg := cfg } evs).accepted := by
+  have hf := SendPath.run_fifo cfg evs
+  have ha := (SendPath.run_aligned cfg evs).1
+  have hn := noPrio_dataBytes _ (SendPath.run_noPrio cfg evs hctl)
+  rw [← hf, SendPath.wire, h2, h3, hn, ha, h1]
+  simp [frameBatch_nil]
+
+-- buffer bounds ----------------------------------------------------------------------------------
+
+theorem push_msgCount_le (e : Egress) (d : List UInt8) (n : Nat) : (e.push d n).msgCount ≤ e.msgCount + n := by
+  unfold Egress.push
+  split
+  · exact Nat.le_add_right _ _
+  · exact Nat.le_refl _
+
+theorem maxCount_budget (cfg : BatchCfg) (pending : Nat) (h : pending < max cfg.sndhwm 1) :
+    pending + maxCount cfg pending ≤ max cfg.sndhwm 1 := by
+  unfold maxCount
+  omega
+
+theorem SendPath.step_bounded (s : SendPath) (ev : SendEv) (hc : 1 ≤ s.cfg.count)
+    (h : s.egress.msgCount ≤ max s.cfg.sndhwm 1 ∧ s.carry.length ≤ s.cfg.count) :
+    (s.step ev).egress.msgCount ≤ max s.cfg.sndhwm 1 ∧ (s.step ev).carry.length ≤ s.cfg.count := by
+  obtain ⟨hm, hl⟩ := h
+  cases ev with
+  | accept m => exact ⟨hm, hl⟩
+  | assembleCarry =>
+    simp only [SendPath.step]
+    split
+    · rename_i hg
+      simp only [Bool.and_eq_true, SendPath.gateOpen, decide_eq_true_eq] at hg
+      refine ⟨?_, ?_⟩
+      · have h1 := push_msgCount_le s.egress
+          (frameBatch (assembleFromCarry s.cfg s.egress.msgCount s.carry s.pipe).batch)
+          (assembleFromCarry s.cfg s.egress.msgCount s.carry s.pipe).batch.length
+        have h2 := assembleFromCarry_count s.cfg s.egress.msgCount s.carry s.pipe
+        have h3 := maxCount_budget s.cfg s.egress.msgCount hg.2
+        simp only at h1 ⊢
+        omega
+      · have := assembleFromCarry_carry_length s.cfg s.egress.msgCount s.carry s.pipe
+        simp only
+        omega
+    · exact ⟨hm, hl⟩
+  | assemblePipe =>
+    simp only [SendPath.step]
+    split
+    · rename_i hg
+      obtain ⟨hcn, hgo⟩ := pipe_guard_carry_nil hg
+      simp only [SendPath.gateOpen, decide_eq_true_eq] at hgo
+      split
+      · exact ⟨hm, hl⟩
+      · rename_i first rest hp
+        refine ⟨?_, ?_⟩
+        · have h1 := push_msgCount_le s.egress
+            (frameBatch (assembleFromPipe s.cfg s.egress.msgCount first rest).batch)
+            (assembleFromPipe s.cfg s.egress.msgCount first rest).batch.length
+          have h2 := assembleFromPipe_count s.cfg s.egress.msgCount first rest hc
+          have h3 := maxCount_budget s.cfg s.egress.msgCount hgo
+          simp only at h1 ⊢
+          omega
+        · have := assembleFromPipe_carry_length s.cfg s.egress.msgCount first rest
+          simp only [hcn, List.nil_append]
+          exact this
+    · exact ⟨hm, hl⟩
+  | written n =>
+    refine ⟨Nat.le_trans (advance_msgCount_le _ _ _) hm, hl⟩
+  | control f =>
+    refine ⟨?_, hl⟩
+    simp only [SendPath.step, Egress.pushPriority]
+    split
+    · exact hm
+    · split
+      · split <;> exact hm
+      · exact hm
+
+theorem SendPath.run_bounded (cfg : BatchCfg) (evs : List SendEv) (hc : 1 ≤ cfg.count) :
+    (SendPath.run { cfg := cfg } evs).egress.msgCount ≤ max cfg.sndhwm 1
+    ∧ (SendPath.run { cfg := cfg } evs).carry.length ≤ cfg.count := by
+  have := SendPath.run_induction
+    (fun t => t.cfg = cfg ∧ t.egress.msgCount ≤ max t.cfg.sndhwm 1 ∧ t.carry.length ≤ t.cfg.count) evs
+    { cfg := cfg } ⟨rfl, Nat.zero_le _, Nat.zero_le _⟩
+    (fun t ev _ h => by
+      obtain ⟨h0, h1⟩ := h
+      have := SendPath.step_bounded t ev (by rw [h0]; exact hc) h1
+      rw [SendPath.step_cfg]
+      exact ⟨h0, this⟩)
+  obtain ⟨h0, h1⟩ := this
+  rw [h0] at h1
+  exact h1
+
+-- ---------------------------------------------------------------------------------------------
+-- the receive path
+-- ---------------------------------------------------------------------------------------------
+
+theorem RecvPath.run_induction (P : RecvPath → Prop) (evs : List RecvEv) :
+    ∀ (r : RecvPath), P r → (∀ r ev, P r → P (r.step ev)) → P (r.run evs) := by
+  induction evs with
+  | nil => intro r h _; exact h
+  | cons ev evs ih =>
+    intro r h hstep
+    simp only [RecvPath.run, List.foldl_cons]
+    exact ih (r.step ev) (hstep r ev h) hstep
+
+theorem RecvPath.step_fifo (r : RecvPath) (ev : RecvEv) (h : r.delivered ++ r.queue ++ r.buffer = r.decoded) :
+    (r.step ev).delivered ++ (r.step ev).queue ++ (r.step ev).buffer = (r.step ev).decoded := by
+  cases ev with
+  | read msgs =>
+    simp only [RecvPath.step]
+    split
+    · rename_i hb
+      rw [List.isEmpty_iff.mp hb, List.append_nil] at h
+      simp only [h]
+    · exact h
+  | drainBatch =>
+    simp only [RecvPath.step, List.append_assoc, List.take_append_drop]
+    simpa using h
+  | sendOne =>
+    simp only [RecvPath.step]
+    split
+    · exact h
+    · rename_i m rest hb
+      split
+      · simp only [← h, hb, List.append_assoc, List.cons_append, List.nil_append]
+      · exact h
+  | sendCancelled => exact h
+  | appRecv =>
+    simp only [RecvPath.step]
+    split
+    · exact h
+    · rename_i m rest hq
+      simp only [← h, hq, List.append_assoc, List.cons_append, List.nil_append]
+
+theorem RecvPath.run_fifo (r0 : Nat) (evs : List RecvEv) :
+    (RecvPath.run { rcvhwm := r0 } evs).delivered ++ (RecvPath.run { rcvhwm := r0 } evs).queue
+      ++ (RecvPath.run { rcvhwm := r0 } evs).buffer = (RecvPath.run { rcvhwm := r0 } evs).decoded :=
+  RecvPath.run_induction (fun r => r.delivered ++ r.queue ++ r.buffer = r.decoded) evs _ rfl RecvPath.step_fifo
+
+theorem RecvPath.step_queue (r : RecvPath) (ev : RecvEv) (h : r.queue.length ≤ max r.rcvhwm 1) :
+    (r.step ev).rcvhwm = r.rcvhwm ∧ (r.step ev).queue.length ≤ max r.rcvhwm 1 := by
+  cases ev with
+  | read msgs =>
+    simp only [RecvPath.step]
+    split <;> exact ⟨rfl, h⟩
+  | drainBatch =>
+    refine ⟨rfl, ?_⟩
+    simp only [RecvPath.step, List.length_append, List.length_take]
+    omega
+  | sendOne =>
+    simp only [RecvPath.step]
+    split
+    · exact ⟨rfl, h⟩
+    · split
+      · refine ⟨rfl, ?_⟩
+        simp only [List.length_append, List.length_singleton]
+        omega
+      · exact ⟨rfl, h⟩
+  | sendCancelled => exact ⟨rfl, h⟩
+  | appRecv =>
+    simp only [RecvPath.step]
+    split
+    · exact ⟨rfl, h⟩
+    · rename_i m rest hq
+      refine ⟨rfl, ?_⟩
+      rw [hq] at h
+      simp only [List.length_cons] at h
+      show rest.length ≤ max r.rcvhwm 1
+      omega
+
+theorem RecvPath.run_queue (r0 : Nat) (evs : List RecvEv) :
+    (RecvPath.run { rcvhwm := r0 } evs).queue.length ≤ max r0 1 := by
+  have := RecvPath.run_induction (fun r => r.rcvhwm = r0 ∧ r.queue.length ≤ max r.rcvhwm 1) evs
+    { rcvhwm := r0 } ⟨rfl, Nat.zero_le _⟩
+    (fun r ev h => by
+      obtain ⟨h0, h1⟩ := h
+      obtain ⟨g0, g1⟩ := RecvPath.step_queue r ev h1
+      rw [g0]
+      exact ⟨h0, g1⟩)
+  obtain ⟨h0, h1⟩ := this
+  rw [h0] at h1
+  exact h1
+
+-- ---------------------------------------------------------------------------------------------
+-- regrouping
+-- ---------------------------------------------------------------------------------------------
+
+/-- one well-formed message at the front of the frame stream is regrouped as one message -/
+theorem regroup_msg : ∀ (m : Message) (acc rest : List Frame), m ≠ [] →
+    (∀ f ∈ m.dropLast, f.more = true) → (∀ f, m.getLast? = some f → f.more = false) →
+    regroup acc (m ++ rest) = ((acc ++ m) :: (regroup [] rest).1, (regroup [] rest).2) := by
+  intro m
+  induction m with
+  | nil => intro acc rest h; exact absurd rfl h
+  | cons f tl ih =>
+    intro acc rest _ hd hl
+    cases tl with
+    | nil =>
+      have hf : f.more = false := hl f rfl
+      simp only [List.cons_append, List.nil_append, regroup, hf, Bool.false_eq_true, if_false]
+    | cons g tl =>
+      have hf : f.more = true := hd f (by simp [List.dropLast])
+      have := ih (acc ++ [f]) rest (by simp)
+        (fun x hx => hd x (by simp only [List.dropLast_cons_cons, List.mem_cons]; exact Or.inr hx))
+        (fun x hx => hl x (by simpa [List.getLast?_cons_cons] using hx))
+      rw [List.cons_append, regroup, if_pos hf, this]
+      simp
+
+theorem regroup_flatten' (ms : List Message)
+    (h : ∀ m ∈ ms, m ≠ [] ∧ (∀ f ∈ m.dropLast, f.more = true) ∧ (∀ f, m.getLast? = some f → f.more = false)) :
+    regroup [] ms.flatten = (ms, []) := by
+  induction ms with
+  | nil => rfl
+  | cons m ms ih =>
+    obtain ⟨h1, h2, h3⟩ := h m (List.mem_cons_self ..)
+    rw [List.flatten_cons, regroup_msg m [] ms.flatten h1 h2 h3,
+      ih (fun m' hm' => h m' (List.mem_cons_of_mem _ hm'))]
+    rfl
+
+-- ---------------------------------------------------------------------------------------------
+-- end to end
+-- ---------------------------------------------------------------------------------------------
+
+theorem feed_written (cfg : BatchCfg) (evs : List SendEv) (max : Int) (cuts : List (List UInt8))
+    (hctl : ∀ e ∈ evs, ∀ f, e ≠ .control f)
+    (h1 : (SendPath.run { cfg := cfg } evs).egress.chunks = [])
+    (h2 : (SendPath.run { cfg := cfg } evs).carry = [])
+    (h3 : (SendPath.run { cfg := cfg } evs).pipe = [])
+    (hok : ∀ m ∈ (SendPath.run { cfg := cfg } evs).accepted, ∀ f ∈ m, C03.FrameOk f ∧ C03.Admits max f)
+    (hcuts : cuts.flatten = (SendPath.run { cfg := cfg } evs).egress.written) :
+    (feedChunks max {} cuts).2 = (SendPath.run { cfg := cfg } evs).accepted.flatten := by
+  apply C03.roundtrip_any_cuts
+  · intro f hf
+    obtain ⟨m, hm, hfm⟩ := List.mem_flatten.mp hf
+    exact (hok m hm f hfm).1
+  · intro f hf
+    obtain ⟨m, hm, hfm⟩ := List.mem_flatten.mp hf
+    exact (hok m hm f hfm).2
+  · rw [hcuts, SendPath.run_drained cfg evs hctl h1 h2 h3, frameBatch, C03.frameContiguous_eq]
+
 end Rzmq
